@@ -16,6 +16,7 @@ mod c13;
 mod c15;
 mod c16;
 mod c17;
+mod c18;
 mod c19;
 mod c20;
 mod fw;
@@ -91,6 +92,7 @@ fn run(id: &str, tier: &str) -> i32 {
         "C15" => c15::check(tier),
         "C16" => c16::check(tier),
         "C17" => c17::check(tier),
+        "C18" => c18::check(tier),
         "C19" => c19::check(tier),
         "C20" => c20::check(tier),
         _ => {
